@@ -108,11 +108,74 @@ fn row_equiv(exp: &Row, obs: &Row, ver: Ver, norms: &mut Vec<&'static str>) -> O
 }
 
 /// type equality up to documented normalisation. Returns Some(tag) when a normalisation applied.
+///
+/// The only normalisation accepted: the child field of a FixedSizeList comes back nullable. The
+/// Lance schema stores a fixed size list as the *leaf* logical type string
+/// `fixed_size_list:<inner>:<n>` (protos/file.proto `Field.logical_type`,
+/// lance-core/src/datatypes.rs), which has no slot for the child's nullability; the reader always
+/// rebuilds it as `("item", nullable = true)`.
 fn type_equiv(exp: &DataType, obs: &DataType) -> Result<Option<String>, ()> {
-    if exp == obs {
-        return Ok(None);
+    fn eq(e: &DataType, o: &DataType, widened: &mut bool) -> bool {
+        use DataType::*;
+        match (e, o) {
+            (FixedSizeList(a, n), FixedSizeList(b, m)) => {
+                if n != m || a.name() != b.name() {
+                    return false;
+                }
+                if a.is_nullable() != b.is_nullable() {
+                    if !a.is_nullable() && b.is_nullable() {
+                        *widened = true;
+                    } else {
+                        return false;
+                    }
+                }
+                eq(a.data_type(), b.data_type(), widened)
+            }
+            (List(a), List(b)) | (LargeList(a), LargeList(b)) => {
+                a.name() == b.name()
+                    && a.is_nullable() == b.is_nullable()
+                    && eq(a.data_type(), b.data_type(), widened)
+            }
+            (Struct(a), Struct(b)) => {
+                a.len() == b.len()
+                    && a.iter().zip(b.iter()).all(|(x, y)| {
+                        x.name() == y.name()
+                            && x.is_nullable() == y.is_nullable()
+                            && eq(x.data_type(), y.data_type(), widened)
+                    })
+            }
+            (Dictionary(k1, v1), Dictionary(k2, v2)) => k1 == k2 && eq(v1, v2, widened),
+            _ => e == o,
+        }
     }
-    Err(())
+    let mut widened = false;
+    if eq(exp, obs, &mut widened) {
+        Ok(if widened {
+            Some("fsl-child-field-nullable-widened".to_string())
+        } else {
+            None
+        })
+    } else {
+        Err(())
+    }
+}
+
+/// `/repo/rust/<file>:<line>` of the first in-repo frame / location mentioned by an error text
+pub fn err_site(msg: &str) -> String {
+    if let Some(p) = msg.find("/repo/rust/") {
+        let rest = &msg[p + "/repo/rust/".len()..];
+        let end = rest
+            .find(|c: char| !(c.is_alphanumeric() || "/_-.:".contains(c)))
+            .unwrap_or(rest.len());
+        let site = &rest[..end];
+        // drop a trailing column number (file.rs:12:34 -> file.rs:12)
+        let parts: Vec<&str> = site.split(':').collect();
+        if parts.len() >= 2 {
+            return format!("{}:{}", parts[0], parts[1]);
+        }
+        return site.to_string();
+    }
+    "nosite".into()
 }
 
 /// The deciding oracle: pure function of (model, observation).
@@ -500,6 +563,21 @@ async fn run_case(cx: &Ctx<'_>, seed: u64, idx: u64, selftest: bool) -> (u64, u6
         let depth = rng.below(3) as u32;
         XSpec::random(&mut rng, ncols, depth)
     };
+    if ver == Ver::Legacy {
+        // legacy: no null support, one dictionary per file (documented limits) -> keep the
+        // generator inside what the format can represent
+        for _ in 0..8 {
+            if !spec.has_dictionary() {
+                break;
+            }
+            spec = XSpec::random(&mut rng, ncols, 1);
+        }
+        if spec.has_dictionary() {
+            spec = XSpec::from_colty(&mut rng, 1);
+            spec.cols[0].ty = DataType::Int32;
+        }
+        spec = spec.without_nulls();
+    }
     let world = World::memory();
     let place = if rng.chance(1, 6) {
         match tempfile::Builder::new().prefix("e_rows-c11-").tempdir_in("/tmp") {
@@ -541,6 +619,12 @@ async fn run_case(cx: &Ctx<'_>, seed: u64, idx: u64, selftest: bool) -> (u64, u6
             let ncols = rng.urange(1, 5);
             let depth = rng.below(3) as u32;
             step_spec = XSpec::random(&mut rng, ncols, depth);
+            if ver == Ver::Legacy {
+                if step_spec.has_dictionary() {
+                    step_spec = spec.clone();
+                }
+                step_spec = step_spec.without_nulls();
+            }
         }
         let n = *rng.pick_weighted(&[(1, 0usize), (2, 1), (3, 5), (4, 33), (4, 100), (2, 257)]);
         let n = if n > 5 { rng.urange(n / 2, n) } else { n };
@@ -579,7 +663,7 @@ async fn run_case(cx: &Ctx<'_>, seed: u64, idx: u64, selftest: bool) -> (u64, u6
                 params.enable_v2_manifest_paths = v2_paths;
             }
             "overwrite" => {
-                if rng.chance(1, 3) {
+                if ver != Ver::Legacy && rng.chance(1, 3) {
                     step_ver = *rng.pick(&[Ver::V2_0, Ver::V2_1, Ver::V2_2]);
                     params.data_storage_version = Some(step_ver.lance());
                     pdesc.push_str(&format!(" version->{}", step_ver.name()));
@@ -650,6 +734,14 @@ async fn run_case(cx: &Ctx<'_>, seed: u64, idx: u64, selftest: bool) -> (u64, u6
                     if step + 1 < nsteps {
                         let ncols = rng.urange(1, 4);
                         spec = XSpec::from_colty(&mut rng, ncols);
+                        if ver == Ver::Legacy {
+                            for c in spec.cols.iter_mut() {
+                                if matches!(c.ty, DataType::Dictionary(_, _)) {
+                                    c.ty = DataType::Utf8;
+                                }
+                            }
+                            spec = spec.without_nulls();
+                        }
                     }
                     continue;
                 }
@@ -711,7 +803,12 @@ async fn run_case(cx: &Ctx<'_>, seed: u64, idx: u64, selftest: bool) -> (u64, u6
                     .collect::<Vec<_>>()
                     .join("+");
                 cx.report.violation(
-                    &format!("read-failed-after-accepted-write-{}-{}", e.class(), eff_ver.name()),
+                    &format!(
+                        "read-failed-after-accepted-write-{}-{}-{}",
+                        e.class(),
+                        err_site(&e.msg()),
+                        eff_ver.name()
+                    ),
                     "an accepted write cannot be read back (scan / count_rows error or panic)",
                     json!({"seed": seed, "case": idx, "step": step, "error": e.brief(), "schema": spec.describe(),
                            "types": ty, "version": eff_ver.name(), "uri": uri,
